@@ -6,14 +6,17 @@ package main
 // Script (space separated):  d=<restart delay ms> dl=<readiness deadline ms> b=<b0,b1,...> <action>...
 //   behaviours, one per factory call in call order (default r): r ready, n never ready,
 //   e error state, x factory error; suffix s = Stop() blocks until released
-//   actions: push:<cmap> | stop | cancel | close | release | settle | snap | peek | sleep:<ms>
+//   actions: push:<cmap> | stop | cancel | close | release | settle | snap | peek | sleep:<ms> | exit:<n>
+//   (exit:<n>: the n-th - modulo their number - of the servers that have been seen ready, are inside Run
+//   and are not being stopped gives up by itself: its Run returns an error although nobody stopped it)
 //
 // Trace tokens: O:<cmap> offer on the siphon (emitted before the send), PD send completed,
 //   SA/SR Stop() call/return, CA cancel, CL close(siphon), F:<xid>,<cfg>,<inst>,<beh> factory ok,
 //   FE:<xid>,<cfg> factory error, RC/RX:<inst> Run call/return, SC/ST:<inst> Stop call/return,
-//   N:<count> GetServerCount, S:<R|L|P|D|?> GetState, RR Run returned.
-//   (PD, RX and NB are bookkeeping; the check strips them before the acceptor.  TIMING marks a run in
-//   which the process stalled for longer than the readiness deadline: such a run is discarded.)
+//   CX:<inst> the server saw its context cancelled before any Stop() call, XS:<inst> the server's Run
+//   returned by itself, N:<count> GetServerCount, S:<R|L|P|D|?> GetState, RR Run returned.
+//   (NB is bookkeeping; the check strips it before the acceptor.  TIMING marks a run in which the
+//   process stalled for longer than the readiness deadline: such a run is discarded.)
 
 import (
 	"context"
@@ -99,7 +102,8 @@ func runnerChild(script string) int {
 		}
 		m := &mockServer{env: e, inst: e.nextInst, id: id, cfg: cfgNum(cfg), ready: b[0],
 			slowStop: strings.HasSuffix(b, "s") && len(b) > 1,
-			release:  make(chan struct{}), stopped: make(chan struct{}), created: time.Now()}
+			release:  make(chan struct{}), stopped: make(chan struct{}), exit: make(chan struct{}),
+			fctx: ctx, created: time.Now()}
 		e.nextInst++
 		e.servers = append(e.servers, m)
 		e.mu.Unlock()
@@ -266,6 +270,31 @@ func runnerChild(script string) int {
 			}
 		case a == "peek":
 			peek()
+		case strings.HasPrefix(a, "exit:"):
+			// only at a point where the loop is idle (GetServerCount answers) and nothing is in flight
+			n, _ := strconv.Atoi(a[5:])
+			if terminated || !pushSettled(2*time.Second) {
+				continue
+			}
+			quiesce()
+			if _, ok := count(2 * time.Second); !ok {
+				continue
+			}
+			e.mu.Lock()
+			ss := append([]*mockServer(nil), e.servers...)
+			e.mu.Unlock()
+			var cands []*mockServer
+			for _, m := range ss {
+				e.logMu.Lock()
+				ok := m.ready == 'r' && m.sawReady && m.runCalled && !m.returned && !m.stopCalled
+				e.logMu.Unlock()
+				if ok {
+					cands = append(cands, m)
+				}
+			}
+			if len(cands) > 0 {
+				cands[n%len(cands)].doExit()
+			}
 		case strings.HasPrefix(a, "sleep:"):
 			ms, _ := strconv.Atoi(a[6:])
 			time.Sleep(time.Duration(ms) * time.Millisecond)
@@ -408,7 +437,7 @@ func genScript(r *prng.R, fam string) string {
 	npush := 1 + r.Intn(4)
 	term := prng.Pick(r, []string{"stop", "cancel", "close", ""})
 	termAt := r.Intn(npush + 1)
-	if fam == "settled" || (fam == "mixed" && r.Chance(1, 2)) {
+	if fam == "settled" || fam == "selfexit" || (fam == "mixed" && r.Chance(1, 2)) {
 		termAt = npush
 	}
 	interject := func() {
@@ -438,6 +467,11 @@ func genScript(r *prng.R, fam string) string {
 		switch fam {
 		case "settled", "collision":
 			acts = append(acts, "release", "snap")
+		case "selfexit":
+			acts = append(acts, "release", "snap")
+			if r.Chance(2, 3) {
+				acts = append(acts, fmt.Sprintf("exit:%d", r.Intn(4)), "snap")
+			}
 		case "delay", "wait":
 			if r.Chance(1, 2) {
 				acts = append(acts, "peek")
@@ -483,7 +517,7 @@ func runnerBatch() {
 	} else {
 		fams := []string{*family}
 		if *family == "all" {
-			fams = []string{"mixed", "mixed", "mixed", "settled", "settled", "collision", "delay", "wait"}
+			fams = []string{"mixed", "mixed", "mixed", "settled", "settled", "collision", "delay", "wait", "selfexit"}
 		}
 		for i := 0; i < *nCases; i++ {
 			f := fams[i%len(fams)]
